@@ -52,6 +52,22 @@ CHECKS = {
         note='Filters restricted to integer-sample delays with integer gains (exact shift of the zero-padded FFT filter). '
              'Ray tracer / ray path objects (LazyObj) are covered through the tracer drivers of C02/C18 when built; '
              'until then the check decides the signal half of the property only.'),
+    'C03': dict(
+        spec='PropagateRel.tla', design='12.2',
+        technique='TLA+ relation-algebra spec PropagateRel.tla (bilinear bookkeeping of signal and polarization combinations, grid '
+                  'moves) checked with TLC; its behaviours replayed on RayPath.propagate of the specialized, numerical, uniform and '
+                  'layered tracers with the output compared with the predicted combination of base outputs at every state',
+        text='PropagateRel.tla writes the input signal and the polarization as integer combinations of basis elements, moves the '
+             'grid by whole samples, and keeps separately the coefficient matrix M (and vector R) that predicts the output as a '
+             'combination of the base outputs propagate(s_i, e_j); TLC checks Consistent (M = a x c, R = a) exhaustively to depth 4 '
+             '(7 thorough) for 4 tracers x 5 geometries (one exactly vertical) x attenuation interpolation off / 0.1; depth-7 '
+             'simulations are executed on the real paths: s, p and unpolarized outputs must equal the predicted combinations '
+             '(1e-9), lie on the input grid + time of flight, carry no more energy than |c|^2 times the input; polarization '
+             'vectors unit, orthogonal, transverse; attenuation in (0,1], even in f, not growing with |f|; |Fresnel| <= 1.',
+        note='Decides linearity in signal and polarization, time invariance / exact delay, the energy inequality, the polarization '
+             'vector clauses and the range / monotonicity of the attenuation factor on a 10-point frequency lattice. Does not decide '
+             'that the attenuation equals the line integral of 1/L_att, nor the agreement between interpolated and exact '
+             'attenuation (numerical). Open known finding D31 (layered transmission coefficients exceed 1).'),
     'C07': dict(
         spec='AskaryanRel.tla', design='12.1',
         technique='TLA+ relation-algebra spec AskaryanRel.tla (input transformations with exactly predicted effect on the output) '
@@ -61,8 +77,8 @@ CHECKS = {
              'time moved together, shower time moved by whole samples, energy times k for an EM shower on the cone, zero shower '
              'energy by energy or by fractions, angle-lattice scan) and keeps, separately from the inputs, the predicted relation '
              'of the current field to the base field (scale fraction, shift in samples, zero flag); TLC checks Consistent '
-             'exhaustively to depth 4 (6 thorough) over 3 models x 2 lengths (parity) x 2 steps x 3 EM/hadronic splits x 9 angles; '
-             'depth-6 simulations are executed on the real models with every field compared (1e-9 of the peak), of the right '
+             'exhaustively to depth 4 (5 thorough) over 3 models x 2 lengths (parity) x 2 steps x 3 EM/hadronic splits x 9 angles; '
+             'depth-6 simulations (5 base energies from 1e9 GeV down to below every critical energy, shower times up to and beyond the window edges, grid offsets to 1e6 samples) are executed on the real models with every field compared (1e-9 of the peak), of the right '
              'length and finite.',
         note='Decides the exact relational clauses (1/R, |angle|, joint shift, whole-sample shift, finiteness, zero energy, on-cone '
              'EM energy proportionality) and, on a 0.02 rad lattice only, largest-on-cone and monotone fall-off. Between lattice '
@@ -178,7 +194,6 @@ CHECKS = {
 
 NOT_APPLICABLE = {
     'C01': 'purely numerical (closed-form integrals / root search against a continuous index profile); no discrete state for a TLA+ model, see DESIGN.md section 6',
-    'C03': 'purely numerical (attenuation integrals, Fresnel magnitudes, energy inequality of one pure function); the grid-delay clause is observed inside C10 traces',
     'C15': 'purely numerical (quadrature accuracy of a line integral); no state to model',
     'C17': 'statistical/spectral statement about random waveforms; the absolute-time clause is exercised in C09',
     'C20': 'static property of the source text against library versions; nothing evolves (the import defect D0 it describes was repaired as a precondition, see known_findings.json)',
